@@ -40,9 +40,9 @@ var props = map[string]propMeta{
 	},
 	"C02": {
 		Level: "fault_enumeration",
-		Rule: "family stops: for a seeded base run of the publish flow (both levels, light fault mix) with K storage operations after InitSession, the same seed is re-run 2K times with the process stopped before and after every Save/Delete/Load/List (an interrupted Save or Delete reaches the medium or not by draw), then AdoptSession on the frozen image against the same broker model, 2-4 incarnations with fresh publishes in each, later stops (also inside AdoptSession itself) at drawn operation boundaries; family anywhere: stops at any scheduler step. Oracle at the adopted client's first Online: lower (accepted, final acknowledgement not handed over) is a subset of the resumed set, which is a subset of upper (lower + still stored), original identifiers and order, stage PUBREL exactly when the stored record is a PUBREL; no warnings or fatal; nothing lost and no exactly-once duplicate after the last incarnation quiesced." + distinctRule + " non-trivial = a transfer was resumed after a restart",
+		Rule: "family stops: for a seeded base run of the publish flow (both levels, light fault mix) with K storage operations after InitSession, the same seed is re-run 2K times with the process stopped before and after every Save/Delete/Load/List (an interrupted Save or Delete reaches the medium or not by draw), then AdoptSession on the frozen image against the same broker model, 2-4 incarnations with fresh publishes in each, later stops (also inside AdoptSession itself) at drawn operation boundaries; family anywhere: stops at any scheduler step; family fs-store: the same session on the real FileSystem store over the simulated os, killed at a drawn system call (entry, exit, or inside the data write after a drawn byte count). Oracle at the adopted client's first Online: lower (accepted, final acknowledgement not handed over) is a subset of the resumed set, which is a subset of upper (lower + still stored), original identifiers and order, stage PUBREL exactly when the stored record is a PUBREL; no warnings or fatal; nothing lost and no exactly-once duplicate after the last incarnation quiesced." + distinctRule + " non-trivial = a transfer was resumed after a restart",
 		Assumptions: append([]string{"the crash model is a process stop: the Persistence keeps exactly what completed operations wrote, plus possibly the one operation in progress", "sweeps are complete over the storage-operation boundaries of each sampled base run, not over all base runs"}, flowAssumptions...),
-		Probes:      []string{"resumed_after_restart", "second_restart_checked", "stop_before_op", "stop_after_op", "stop_anywhere"},
+		Probes:      []string{"resumed_after_restart", "second_restart_checked", "stop_before_op", "stop_after_op", "stop_anywhere", "stop_inside_write", "stop_before_syscall", "stop_after_syscall"},
 		QuickS:      25, ThoroughS: 400,
 	},
 	"C03": {
@@ -134,6 +134,13 @@ var props = map[string]propMeta{
 		Rule: "seeded: a flow run (publishers of both levels, inbound exactly-once traffic) is stopped at a drawn step; 1-3 records of the image (outbound PUBLISH, PUBREL, inbound marker, client identifier) are altered in one byte, truncated or removed and 0-2 stray entries added (foreign key ranges, garbage, valid-looking records); AdoptSession, then a fault-free incarnation with new publishes against the same broker model. Oracles: no fatal, no panic, at least one warning per unusable record, the client comes online and completes what it resumed and what is new within the liveness bounds, resent packets equal genuinely saved records in their original order, no identifier collision." + distinctRule + " non-trivial = damage was applied and the session recovered",
 		Assumptions: flowAssumptions,
 		Probes:      []string{"damaged_session_recovered", "damage_alter_publish", "damage_remove_publish", "damage_alter_pubrel", "damage_alter_marker", "damage_remove_marker", "damage_alter_clientid", "damage_stray_stray"},
+		QuickS:      25, ThoroughS: 400,
+	},
+	"C19": {
+		Level: "fault_enumeration",
+		Rule: "the real fileSystem methods of /repo on the simulated os (every os call of mqtt.go is a park point). family stops: for a seeded sequence of 2-7 Save/Delete/Load/List calls over 1-3 keys (values 12 B..100 KiB, several MiB in the thorough tier; 1-3 buffers) a dry pass lists the system calls, then the same seed is re-run once per crash point: a process kill at the entry and exit of EVERY system call and inside every data write after EVERY byte count (complete up to 4 KiB per write, 9 sampled counts above); afterwards a fresh FileSystem(dir) on the frozen image must load each key as its complete previous or complete new value (Delete: previous or absent), leave other keys unchanged, list every acknowledged key and nothing Load cannot return; family errors: ENOSPC/EIO/short writes injected at drawn calls, a failed Save leaves the previous value and the store agrees with the model afterwards; family concurrent: 2-4 tasks, one writer per key, every os call a scheduling point, histories of <= 12 operations checked with porcupine against a map (Unknown = inconclusive); invariant at every rename: the source was flushed (Sync) before it became visible." + distinctRule + " non-trivial = a crash point or error was injected, or a concurrent history of more than 3 operations was checked",
+		Assumptions: []string{"the crash model is a process kill: all completed system calls and the prefix of the interrupted write survive; power loss below that level is not modelled (the flush clause is checked as an ordering invariant at rename)", "rename is atomic, as POSIX requires", "two simultaneous writers of one key are not generated: the statement promises non-interference for different keys and both Saves share one spool name by design", "the crash-point enumeration is complete for each sampled operation sequence, not over all sequences"},
+		Probes:      []string{"stop_before_syscall", "stop_after_syscall", "stop_inside_write", "stopped_save_new_value", "stopped_save_old_value", "save_failed", "history_linearizable", "fs_err_write", "fs_err_rename", "fs_err_sync"},
 		QuickS:      25, ThoroughS: 400,
 	},
 	"C17": {
